@@ -183,8 +183,8 @@ func c30Orders(t *rapid.T, n int) ([]int, []int) {
 
 func TestC30_PermutationInvariant(t *testing.T) {
 	ev := harn.For("C30").Rule(c30Rule)
-	ev.Floor("case:ties", "", 0.3)
-	harn.Check(t, 6000, 300000, func(t *rapid.T) {
+	ev.Floor("case:ties", "perm:cases", 0.3)
+	harn.Check(t, 15000, 200000, func(t *rapid.T) {
 		c := c30Gen(t)
 		a, b := c30Orders(t, len(c.peers))
 		ca := c30Run(t, c, a)
@@ -203,6 +203,7 @@ func TestC30_PermutationInvariant(t *testing.T) {
 			t.Fatalf("GenesisChainConfig is not repeatable for the same input; %s", c30Desc(c))
 		}
 		differ := !reflect.DeepEqual(a, b)
+		ev.Class("perm:cases")
 		if c.ties {
 			ev.Class("case:ties")
 		}
@@ -215,9 +216,9 @@ func TestC30_PermutationInvariant(t *testing.T) {
 
 func TestC30_TopKAndSlots(t *testing.T) {
 	ev := harn.For("C30").Rule(c30Rule)
-	ev.Floor("case:skewed", "", 0.08)
-	ev.Floor("case:boundary-tie", "", 0.05)
-	harn.Check(t, 6000, 300000, func(t *rapid.T) {
+	ev.Floor("case:skewed", "topk:cases", 0.08)
+	ev.Floor("case:boundary-tie", "topk:cases", 0.05)
+	harn.Check(t, 15000, 200000, func(t *rapid.T) {
 		c := c30Gen(t)
 		a, _ := c30Orders(t, len(c.peers))
 		cc := c30Run(t, c, a)
@@ -299,6 +300,7 @@ func TestC30_TopKAndSlots(t *testing.T) {
 				}
 			}
 		}
+		ev.Class("topk:cases")
 		if c.skew {
 			ev.Class("case:skewed")
 		}
